@@ -150,6 +150,7 @@ def c14 (args res : List String) : Verdict :=
                 | 'i' => (cstep s (.interested a), "")
                 | 'n' => (cstep s (.notInterested a), "")
                 | 'k' => (cstep s (.kill a), "")
+                | 'q' => (s, "")     -- a block request handled by the manager: the choke/interest state is not its business
                 | _ => (s, "?")
               let model := pre ++ snapTok s'
               if c = 'b' ∧ (out.startsWith "B[u]") ≠ (pre = "B[u]") ∧ snapTok s' = snapStr then
